@@ -1,4 +1,4 @@
-from tl_common import TL_DEPS, TL_TB, TL_ASSUME, TL_RULE_COMMON, tl_casesv, tl_sig
+from tl_common import TL_DEPS, TL_TB, TL_ASSUME, TL_RULE_COMMON, tl_casesv_lax, tl_sig
 
 ID = "C08"
 CFG = dict(
@@ -6,7 +6,8 @@ CFG = dict(
     coq_deps=TL_DEPS + ["Properties/C08", "Check/C08"],
     ocaml="tasklane",
     race=True,
-    casesv=tl_casesv,
+    casesv=tl_casesv_lax,
+    drv_args=["--lax-pending-after-wait"],
     case_tags=("HS",),
     coq_sample={"quick": 20, "thorough": 60},
     sig=tl_sig,
